@@ -577,6 +577,25 @@ def plan_edits(r, sc, need_wf=True):
     return edits
 
 
+def queue_many(r, slot, events):
+    """the op for `queue(e₁, e₂, …, **parameters)` in one call: some of the events are given by name (they get the
+    parameters of the call, a `delay` included), the others as Event instances (they keep their own)"""
+    params = [['v', r.randint(0, 4)], ['b', r.random() < 0.5]]
+    if r.random() < 0.5:
+        params.append(['delay', r.randint(0, 3)])
+    form, expanded = [], []
+    for e in events:
+        if r.random() < 0.5:
+            form.append(['name', e['ev']])
+            expanded.append({'ev': e['ev'], 'data': [list(p) for p in params]})
+        else:
+            form.append(['inst', e])
+            expanded.append(e)
+    if not any(k == 'name' for k, _ in form):
+        params = []         # (parameters are for the events given by name)
+    return ['queuemany', slot, expanded, [form, params]]
+
+
 def gen_ops(r, knobs, n_ops, slot=0, t0=0):
     """A history for one interpreter: queue / setvar / exec with a monotone clock."""
     ops = []
@@ -593,7 +612,8 @@ def gen_ops(r, knobs, n_ops, slot=0, t0=0):
             if getattr(knobs, 'clock_moves', 0) and r.random() < knobs.clock_moves:
                 # the clock moves between two steps: queue() must use the *interpreter's* time
                 t += r.choice([1, 2, 3])
-                ops.append(['setclock', slot, t])
+                # (sometimes by giving the interpreter another clock object: its time is the time of its last step all the same)
+                ops.append(['setclock', slot, t] + (['new'] if r.random() < 0.2 else []))
             ops.append(['queue', slot, {'ev': name, 'data': data}])
         elif c < 0.45 and knobs.flags:
             ops.append(['setvar', slot, 'v%d' % r.randrange(knobs.flags), r.random() < 0.5])
